@@ -18,14 +18,16 @@ CONSTANTS Shapes,      \* block shapes: [ntx, votes, btp -> {"e","c"}]; patch li
 
 BodyParts == {"ptx", "ntx", "votes", "btp"}
 Parts == BodyParts \cup {"nsf"}
-Sources == {"X", "Y", "E"}
+Sources == {"X", "Y", "E", "G"}     \* G: bytes that are not an encoding of such a part at all
+Readers == {"seekable", "stream"}      \* how the bytes arrive: a buffer that can seek, or a stream (version is peeked)
 NoDamage == [class |-> "none", k |-> 0]
 \* classes of malformed streams: cut at the boundary after top-level field k (k = NHeader + NBody is the whole
 \* stream), cut in the middle of field k, list length prefix inflated, type tag of field k flipped, trailing bytes
 \* header fields that no body hash protects, re-encoded with a malformed value (the rest of the stream is X's own
 \* and hash-consistent, so decoding reaches the very last step).  Proposer bytes must be an address (21 bytes with
 \* type 0 or 1), a bare 20-byte id, or absent:
-HdrReject == {"hdr:proposer:19", "hdr:proposer:22", "hdr:proposer:type2", "hdr:proposer:type255"}
+HdrReject == {"hdr:proposer:19", "hdr:proposer:22", "hdr:proposer:type2", "hdr:proposer:type255",
+              "hdr:version:other", "hdr:patchtxhash:odd", "hdr:normaltxhash:odd"}
 HdrOk == {"hdr:proposer:20", "hdr:proposer:nil"}          \* well-formed variants: another, decodable header
 \* integers longer than their type, hashes of odd length, a filter of odd length, an empty proposer string:
 \* error or another decodable header, but never a crash
@@ -49,6 +51,7 @@ Own(s, p) == IF p = "ptx" THEN "e" ELSE IF p = "nsf" THEN (IF s.btp = "e" THEN "
 Content(p) ==
   CASE src[p] = "X" -> Own(x, p)
     [] src[p] = "E" -> "e"
+    [] src[p] = "G" -> "g"
     [] src[p] = "Y" -> (IF p = "nsf" THEN Own(y, p)
                         ELSE IF p = "ptx" THEN (IF y.ntx = "e" THEN "e" ELSE "o")   \* Y's transactions as patch list
                         ELSE IF Own(y, p) = "e" THEN "e" ELSE "o")
@@ -62,19 +65,30 @@ DecodeRes ==
   ELSE IF dmg.class \in HdrOk THEN "ok"
   ELSE "nocrash"            \* inflate, fliptag, HdrNoCrash: must not crash; if accepted the body must still match the header
 
+\* the header alone, as the node reads it back from its database (NewBlockFromHeaderReader): no version dispatch and no
+\* body to compare with, so only the proposer classes have a definite verdict
+HeaderOnlyRes ==
+  IF dmg.class \in {"hdr:proposer:19", "hdr:proposer:22", "hdr:proposer:type2", "hdr:proposer:type255"} THEN "reject"
+  ELSE IF dmg.class \in HdrOk THEN "ok" ELSE "nocrash"
+
 Init == /\ x \in Shapes /\ y \in Shapes /\ src = [p \in Parts |-> "X"]
         /\ dmg = NoDamage /\ done = FALSE /\ hist = <<>>
 Swap(p, s) == /\ ~done /\ dmg = NoDamage /\ src[p] = "X" /\ s # "X"
+              /\ (s = "G" => (p \in BodyParts /\ \A q \in Parts : src[q] = "X"))   \* garbage in one part of an otherwise honest stream
+              /\ \A q \in Parts : src[q] # "G"
               /\ src' = [src EXCEPT ![p] = s] /\ UNCHANGED <<x, y, dmg, done, hist>>
 Damage(d) == /\ ~done /\ dmg = NoDamage /\ \A p \in Parts : src[p] = "X"
              /\ dmg' = d /\ UNCHANGED <<x, y, src, done, hist>>
-Decode == /\ ~done /\ done' = TRUE
-          /\ hist' = Append(hist, [op |-> "decode", x |-> x, y |-> y, src |-> src, dmg |-> dmg, res |-> DecodeRes,
+\* the verdict does not depend on how the bytes arrive; streams are explored for streams with at most one foreign part
+Decode(rd) ==
+          /\ ~done /\ done' = TRUE
+          /\ (rd = "stream" => Cardinality({p \in Parts : src[p] # "X"}) <= 1)
+          /\ hist' = Append(hist, [op |-> "decode", rd |-> rd, x |-> x, y |-> y, src |-> src, dmg |-> dmg, res |-> DecodeRes, hres |-> HeaderOnlyRes,
                                    bad |-> {p \in Parts : Content(p) # Own(x, p)}])   \* parts that do not match the header
           /\ UNCHANGED <<x, y, src, dmg>>
 Next == \/ \E p \in Parts, s \in Sources : Swap(p, s)
         \/ \E d \in Damages : Damage(d)
-        \/ Decode
+        \/ \E rd \in Readers : Decode(rd)
 Spec == Init /\ [][Next]_vars
 
 ----------------------------------------------------------------------------
@@ -87,7 +101,7 @@ RoundTrip == [][(Stepped /\ (\A p \in Parts : src[p] = "X") /\ dmg = NoDamage) =
 Binding == [][(Stepped /\ dmg = NoDamage /\ Last.res = "ok") => \A p \in Parts : Content(p) = Own(x, p)]_vars
 \* replacing a non-empty part by anything else, or an empty part by something, is always rejected
 ForeignPartRejected ==
-  [][(Stepped /\ dmg = NoDamage /\ \E p \in BodyParts : Content(p) = "o") => Last.res = "reject"]_vars
+  [][(Stepped /\ dmg = NoDamage /\ \E p \in BodyParts : Content(p) \in {"o", "g"}) => Last.res = "reject"]_vars
 \* a stream that ends early is rejected
 \* a malformed proposer is an error for the receiver of the block, whatever else is consistent
 MalformedProposerRejected ==
